@@ -21,6 +21,19 @@ def _tskit():
     return tskit
 
 
+def ts_b64(ts):
+    """Self-contained copy of all tables (incl. metadata and schemas) for replay files."""
+    import base64
+    import pickle
+    return base64.b64encode(pickle.dumps(ts.dump_tables())).decode()
+
+
+def ts_from_b64(s):
+    import base64
+    import pickle
+    return pickle.loads(base64.b64decode(s)).tree_sequence()
+
+
 def cut_intervals(ts, rng, k, narrow=True):
     """Delete k random intervals (integer ends), no simplification -> nodes with disjoint pieces."""
     L = ts.sequence_length
